@@ -5,20 +5,27 @@ Line-protocol driver for the Devs model (C14, C15, C18-devs).
 One output line per input line.  See harness/c14.py for the producer.
 
   scenario devs|abm         reset
-  prog a cmd ; cmd ; …      define program a        (cmd: abs t p a | rel d p a | cancel k | drop k | halt)
+  prog a cmd ; cmd ; …      define program a        (cmd: abs t p a | rel d p a | again c d p | cancel k | drop c | halt | raise Index|Value|Key)
   stepprog cmd ; …          define the user's step body
   setup | reset              (reset = Simulator.reset() followed by a fresh model: back to `init`)
-  abs t p a | rel d p a | cancel k | drop k
+  abs t p a | rel d p a | cancel k | drop c
+  again c d p                schedule_event_relative once more with the callable object c (`ok none`: the program no longer holds it)
   until T | for d | next | peek n | len
+A run call that is cut short by an exception of a callable answers `err Raised <kind> now=… steps=… log=…` (the program has
+caught the exception: the stored state is `caught`).
 -/
 open Mesa.Devs
 
 def parseCmd : List String → Option Cmd
   | ["rel", d, p, a] => do pure (.schedRel (← d.toInt?) (← p.toNat?) (← a.toNat?))
   | ["abs", t, p, a] => do pure (.schedAbs (← t.toInt?) (← p.toNat?) (← a.toNat?))
+  | ["again", k, d, p] => do pure (.again (← k.toNat?) (← d.toInt?) (← p.toNat?))
   | ["cancel", k] => do pure (.cancel (← k.toNat?))
   | ["drop", k] => do pure (.drop (← k.toNat?))
   | ["halt"] => some .halt
+  | ["raise", "Index"] => some (.raise .index)
+  | ["raise", "Value"] => some (.raise .value)
+  | ["raise", "Key"] => some (.raise .key)
   | _ => none
 
 def words (s : String) : List String := (s.splitOn " ").filter (· ≠ "")
@@ -32,9 +39,17 @@ def fmtEntry : LogEntry → String
   | .user _ k t => s!"{k}@{t}"
   | .step _ t => s!"S@{t}"
 
+def fmtExc : Exc → String
+  | .index => "Index"
+  | .value => "Value"
+  | .key => "Key"
+
 def fmtRun (old : Sim) (s : Sim) : String :=
   let new := s.log.drop old.log.length
-  s!"ok now={s.now} steps={s.steps} log={" ".intercalate (new.map fmtEntry)}"
+  let head := match s.raised with
+    | none => "ok"
+    | some x => "err Raised " ++ fmtExc x
+  s!"{head} now={s.now} steps={s.steps} log={" ".intercalate (new.map fmtEntry)}"
 
 def fmtErr : Err → String
   | .past => "err Past"
@@ -70,7 +85,7 @@ def stepLine (st : St) (ws : List String) : St × String :=
       match t.toInt?, p.toNat? with
       | some t, some p =>
         let e : Ev := { time := t, prio := p, id := st.heap.length + s.nextId, tag := 0, isStep := false,
-                        cancelled := false, dead := false, act := 0 }
+                        cancelled := false, dead := false, act := 0, fn := 0 }
         let h := Mesa.Heap.heappush Ev.lt st.heap e
         ({ st with heap := h, sim := { s with nextId := s.nextId } }, "ok " ++ " ".intercalate (h.map fun e => s!"{e.time},{e.prio},{e.id}"))
       | _, _ => (st, "bad-op")
@@ -89,15 +104,15 @@ def stepLine (st : St) (ws : List String) : St × String :=
       | some T =>
         match runUntil fuel s T with
         | none => (st, "err Fuel")
-        | some s' => ({ st with sim := s' }, fmtRun s s')
+        | some s' => ({ st with sim := caught s' }, fmtRun s s')
   | ["for", d] =>
       match d.toInt? with
       | none => (st, "bad-op")
       | some d =>
         match runFor fuel s d with
         | none => (st, "err Fuel")
-        | some s' => ({ st with sim := s' }, fmtRun s s')
-  | ["next"] => let s' := runNext s; ({ st with sim := s' }, fmtRun s s')
+        | some s' => ({ st with sim := caught s' }, fmtRun s s')
+  | ["next"] => let s' := runNext s; ({ st with sim := caught s' }, fmtRun s s')
   | ["len"] => (st, s!"ok len={s.pending.length}")   -- len(event_list): cancelled events stay until popped
   | ["peek", n] =>
       match n.toNat? with
@@ -119,13 +134,21 @@ def stepLine (st : St) (ws : List String) : St × String :=
         | .ok s' => ({ st with sim := s' }, s!"ok tag={s.nextTag} id={s.nextId}")
         | .error e => (st, fmtErr e)
       | _, _, _ => (st, "bad-op")
+  | ["again", k, d, p] =>
+      match k.toNat?, d.toInt?, p.toNat? with
+      | some k, some d, some p =>
+        match again s k d p with
+        | none => (st, "ok none")
+        | some (.ok s') => ({ st with sim := s' }, s!"ok tag={s.nextTag} id={s.nextId}")
+        | some (.error e) => (st, fmtErr e)
+      | _, _, _ => (st, "bad-op")
   | ["cancel", k] =>
       match k.toNat? with
       | some k => ({ st with sim := cancelTag s k }, "ok")
       | none => (st, "bad-op")
   | ["drop", k] =>
       match k.toNat? with
-      | some k => ({ st with sim := dropTag s k }, "ok")
+      | some k => ({ st with sim := dropFn s k }, "ok")
       | none => (st, "bad-op")
   | _ => (st, "bad-op")
 
